@@ -1,9 +1,10 @@
 SPECIFICATION Spec
 CONSTANTS
-  KeyClasses = {"plain", "special", "unicode"}
-  ValClasses = {"plain", "special", "unicode", "empty", "long"}
+  KeyClasses = {"plain", "special", "unicode", "pct"}
+  ValClasses = {"plain", "special", "unicode", "empty", "long", "pct"}
   Levels = {0, 65, 200}
   MaxMsgs = 2
+  Faults = {"none", "double"}
   HostileKinds = {"truncated", "announce32", "announce16", "missingfields", "wrongtypes", "trailing", "notmsgpack", "empty"}
 INVARIANT Emit
 INVARIANT DeliveredOnce
